@@ -1,5 +1,5 @@
 """Shared machinery of bin/check: TLC runs, harness runs, verdicts, evidence."""
-import json, os, re, subprocess, sys, time, hashlib, shutil
+import json, os, re, subprocess, sys, time, hashlib, shutil, fnmatch
 
 VERIF = os.path.dirname(os.path.dirname(os.path.abspath(__file__)))
 SPEC = os.path.join(VERIF, "spec")
@@ -165,7 +165,7 @@ class Verdict:
     def failure(self, cls, record, matches_asbuilt=True):
         """cls: class key of the failure; record: json-able dict for the replay file"""
         for k in self.known:
-            hit = k["key"] == cls or (k["key"].endswith("*") and cls.startswith(k["key"][:-1]))
+            hit = k["key"] == cls or ("*" in k["key"] and fnmatch.fnmatchcase(cls, k["key"]))
             if hit and (matches_asbuilt or not k.get("needs_asbuilt", False)):
                 self.known_hit.setdefault(k["key"], [0, k])[0] += 1
                 return
@@ -179,7 +179,7 @@ class Verdict:
         for f in rep["failures"]:
             self.failure(f["class"], f, f.get("matches_asbuilt", True))
         for key in self.known_hit:
-            n = sum(v for c, v in rep["counters"].items() if c.startswith("fail:") and (c[5:] == key or (key.endswith("*") and c[5:].startswith(key[:-1]))))
+            n = sum(v for c, v in rep["counters"].items() if c.startswith("fail:") and (c[5:] == key or ("*" in key and fnmatch.fnmatchcase(c[5:], key))))
             self.known_hit[key][0] = n or self.known_hit[key][0]
         # failures beyond the verbatim cap still count: classes listed in counters
         listed = {f["class"] for f in rep["failures"]}
